@@ -568,6 +568,29 @@ func (V *Verifier) rootCmdEnhanced() (bool, string) {
 			}
 		}
 	}
+	// the module options must come from the modules: nothing in NewRootCmd writes autoCliOpts.ModuleOptions (an entry there
+	// replaces the module's own AutoCLIOptions wholesale)
+	overridden := ""
+	ast.Inspect(fn.Body, func(n ast.Node) bool {
+		as, ok := n.(*ast.AssignStmt)
+		if !ok {
+			return true
+		}
+		for _, lhs := range as.Lhs {
+			ast.Inspect(lhs, func(m ast.Node) bool {
+				if se, ok := m.(*ast.SelectorExpr); ok && se.Sel.Name == "ModuleOptions" {
+					if id, ok := se.X.(*ast.Ident); ok && id.Name == optVar {
+						overridden = "NewRootCmd assigns " + optVar + ".ModuleOptions: the module's own AutoCLIOptions are replaced"
+					}
+				}
+				return true
+			})
+		}
+		return true
+	})
+	if overridden != "" {
+		return false, overridden
+	}
 	nret := 0
 	ast.Inspect(fn.Body, func(n ast.Node) bool {
 		if _, isLit := n.(*ast.FuncLit); isLit {
